@@ -17,6 +17,12 @@ INT_DTYPES = ["int8", "int16", "int32", "int64", "uint8", "uint16", "uint32", "u
 FLOAT_DTYPES = ["float32", "float64"]
 ALL_DTYPES = ["bool"] + INT_DTYPES + FLOAT_DTYPES
 HUGE = 2 ** 40       # a slice bound far beyond any row end (and beyond the 32-bit index range)
+# ... and bounds that are far beyond any row end but just inside / at / past the limits of the index dtypes
+FAR = [HUGE, HUGE, 2 ** 31 - 1, 2 ** 31 - 2, 2 ** 30 + 7, 2 ** 31, 2 ** 32 + 1, 2 ** 63 - 1]
+
+
+def _far(rng, sign=1):
+    return sign * rng.choice(FAR)
 
 KINDS = ["sel", "sel", "sel", "alias", "rowget", "elem", "maskget", "ufunc1", "ufunc2", "pyop",
          "reduce", "colagg", "scan", "concat", "like", "where", "nonzero", "rslice", "padded",
@@ -68,6 +74,11 @@ def gen_lengths(rng, P):
     if P.get("giant"):
         # one array beyond 2**16 cells in a few rows (size thresholds of fast paths)
         n = rng.randint(2, 4)
+        if rng.random() < 0.5:
+            # one dominant row that alone passes the threshold, so that most selections still hold 2**16 cells
+            lens = [rng.choice([0, 1, 2, rng.randint(3, 300)]) for _ in range(n)]
+            lens[rng.randrange(n)] = rng.randint(65536, 67000)
+            return lens, "none"
         total = rng.randint(66000, 70000)
         cuts = sorted(rng.sample(range(1, total), n - 1))
         return [b - a for a, b in zip([0] + cuts, cuts + [total])], "none"
@@ -123,21 +134,21 @@ def _window(rng, n, P, lo_bias=False):
     else:
         step = None
     if step is not None and P["oob_bias"] and rng.random() < 0.03:
-        step = HUGE if step > 0 else -HUGE
+        step = _far(rng, 1 if step > 0 else -1)
     if (step or 1) > 0:
         i = rng.randint(0, min(n - 1, 2)) if lo_bias and rng.random() < 0.7 else rng.randint(0, n - 1)
         k = rng.randint(i + 1, n) if rng.random() < 0.6 else n          # window [i, k)
         a = rng.choice([i, i - n] + ([None, None] if i == 0 else []) +
-                       ([-n - 2, -HUGE] if i == 0 and P["oob_bias"] else []))
+                       ([-n - 2, _far(rng, -1)] if i == 0 and P["oob_bias"] else []))
         b = rng.choice([k] + ([k - n] if k < n else [None, None]) +
-                       ([n + 2, HUGE] if k == n and P["oob_bias"] else []))
+                       ([n + 2, _far(rng)] if k == n and P["oob_bias"] else []))
     else:
         i = rng.randint(max(0, n - 3), n - 1) if lo_bias and rng.random() < 0.7 else rng.randint(0, n - 1)
         k = rng.randint(-1, i - 1) if rng.random() < 0.6 else -1            # indices i, i-1, ..., k+1
         a = rng.choice([i, i - n] + ([None, None] if i == n - 1 else []) +
-                       ([n + 2, HUGE] if i == n - 1 and P["oob_bias"] else []))
+                       ([n + 2, _far(rng)] if i == n - 1 and P["oob_bias"] else []))
         b = rng.choice(([k, k - n] if k >= 0 else [None, None]) +
-                       ([-n - 2, -HUGE] if k == -1 and P["oob_bias"] else []))
+                       ([-n - 2, _far(rng, -1)] if k == -1 and P["oob_bias"] else []))
     return a, b, step
 
 
@@ -148,7 +159,7 @@ def _wild_bounds(rng, n, P):
         if r < 0.3:
             return None
         if r < 0.3 + P["oob_bias"]:
-            return rng.choice([n + 1, n + 3, -n - 1, -n - 3, HUGE if rng.random() < 0.5 else -HUGE])
+            return rng.choice([n + 1, n + 3, -n - 1, -n - 3, _far(rng, 1 if rng.random() < 0.5 else -1)])
         return rng.randint(-n, n) if n else rng.choice([0, 1, -1])
     step = None
     r = rng.random()
